@@ -45,7 +45,7 @@ Proof. vm_compute. repeat split; reflexivity. Qed.
 (* ------------------------------------------------------------------------------------------------------
    Added in build session 4 (statements re-stated from the proof files by harness tooling; each is closed by
    exact). *)
-From SplipyModel Require Import Proofs.ObjEval Proofs.IdenticalEndToEnd Transfer.ParamObj Transfer.ParamOps Transfer.ParamOps2.
+From SplipyModel Require Import Proofs.ObjEval Proofs.IdenticalEndToEnd Transfer.ParamObj Transfer.ParamOps Transfer.ParamOps2 Proofs.IdenticalPeriodic.
 Theorem C12_compatible_then_evaluate :
   forall (tol : R) (o1 o2 : obj R) (ts : list R),
          0 < tol ->
@@ -196,4 +196,190 @@ Theorem C12_executed_is_proved_identical :
          obj_make_identical (Q2R tol) (objQ2R o1) (objQ2R o2) direction.
 Proof. exact @obj_make_identical_transfer. Qed.
 Print Assumptions C12_executed_is_proved_identical.
+
+Theorem C12_identical_dir_per_ok :
+  forall (tol : R) (o1 o2 : obj R) (i na nb : nat) (Ta Tb : R),
+         identical_per_hyps tol o1 o2 i na nb Ta Tb -> exists a b : obj R, identical_dir tol o1 o2 i = Ok (a, b).
+Proof. exact @identical_dir_per_ok. Qed.
+Print Assumptions C12_identical_dir_per_ok.
+
+Theorem C12_identical_dir_per_knots :
+  forall (tol : R) (o1 o2 : obj R) (i na nb : nat) (Ta Tb : R),
+         identical_per_hyps tol o1 o2 i na nb Ta Tb ->
+         forall a b : obj R,
+         identical_dir tol o1 o2 i = Ok (a, b) ->
+         let ba := nth i (o_bases a) dflt_basis in
+         let bb := nth i (o_bases b) dflt_basis in
+         b_order ba = b_order (nth i (o_bases o1) dflt_basis) /\
+         b_order bb = b_order (nth i (o_bases o1) dflt_basis) /\
+         b_per1 ba = b_per1 (nth i (o_bases o1) dflt_basis) /\
+         b_per1 bb = b_per1 (nth i (o_bases o1) dflt_basis) /\
+         b_start ba = 0 /\
+         b_end ba = 1 /\
+         b_start bb = 0 /\
+         b_end bb = 1 /\
+         b_knots ba = b_knots bb /\
+         (exists nk : nat,
+            PeriodicEndToEnd.canon_dir a i nk 1 /\
+            PeriodicEndToEnd.canon_dir b i nk 1 /\
+            PeriodicSplit.per_strict (b_knots ba) (b_per1 (nth i (o_bases o1) dflt_basis)) /\
+            (forall v : R,
+             cw (b_knots ba) (b_per1 (nth i (o_bases o1) dflt_basis)) nk v =
+             Nat.max
+               (cw (b_knots (ReparamEndToEnd.rp_basis (nth i (o_bases o1) dflt_basis) 0 1))
+                  (b_per1 (nth i (o_bases o1) dflt_basis)) na v)
+               (cw (b_knots (ReparamEndToEnd.rp_basis (nth i (o_bases o2) dflt_basis) 0 1))
+                  (b_per1 (nth i (o_bases o1) dflt_basis)) nb v))) /\
+         wf_obj_R tol a /\
+         wf_obj_R tol b /\
+         length (o_bases a) = length (o_bases o1) /\
+         length (o_bases b) = length (o_bases o2) /\
+         (forall j : nat, j <> i -> nth j (o_bases a) dflt_basis = nth j (o_bases o1) dflt_basis) /\
+         (forall j : nat, j <> i -> nth j (o_bases b) dflt_basis = nth j (o_bases o2) dflt_basis) /\
+         o_dim a = Nat.max (o_dim o1) (o_dim o2) /\
+         o_dim b = Nat.max (o_dim o1) (o_dim o2) /\ o_rat a = o_rat o1 || o_rat o2 /\ o_rat b = o_rat o1 || o_rat o2.
+Proof. exact @identical_dir_per_knots. Qed.
+Print Assumptions C12_identical_dir_per_knots.
+
+Theorem C12_identical_dir_per_eval :
+  forall (tol : R) (o1 o2 : obj R) (i na nb : nat) (Ta Tb : R),
+         identical_per_hyps tol o1 o2 i na nb Ta Tb ->
+         forall a b : obj R,
+         identical_dir tol o1 o2 i = Ok (a, b) ->
+         forall ts : list R,
+         SplitCompose.dom_all tol o1 ts ->
+         (i < length ts)%nat ->
+         b_start (nth i (o_bases o1) dflt_basis) <= nth i ts 0 <= b_end (nth i (o_bases o1) dflt_basis) ->
+         param_clear tol (nth i (o_bases o1) dflt_basis) (nth i (o_bases o2) dflt_basis) (nth i ts 0) ->
+         obj_eval tol a
+           (KnotInsert.upd ts i
+              ((nth i ts 0 - b_start (nth i (o_bases o1) dflt_basis)) /
+               (b_end (nth i (o_bases o1) dflt_basis) - b_start (nth i (o_bases o1) dflt_basis)))) =
+         res_map (pad (Nat.max (o_dim o1) (o_dim o2) - o_dim o1)) (obj_eval tol o1 ts).
+Proof. exact @identical_dir_per_eval. Qed.
+Print Assumptions C12_identical_dir_per_eval.
+
+Theorem C12_identical_dir_per_eval2 :
+  forall (tol : R) (o1 o2 : obj R) (i na nb : nat) (Ta Tb : R),
+         identical_per_hyps tol o1 o2 i na nb Ta Tb ->
+         forall a b : obj R,
+         identical_dir tol o1 o2 i = Ok (a, b) ->
+         forall ts : list R,
+         SplitCompose.dom_all tol o2 ts ->
+         (i < length ts)%nat ->
+         b_start (nth i (o_bases o2) dflt_basis) <= nth i ts 0 <= b_end (nth i (o_bases o2) dflt_basis) ->
+         param_clear tol (nth i (o_bases o2) dflt_basis) (nth i (o_bases o1) dflt_basis) (nth i ts 0) ->
+         obj_eval tol b
+           (KnotInsert.upd ts i
+              ((nth i ts 0 - b_start (nth i (o_bases o2) dflt_basis)) /
+               (b_end (nth i (o_bases o2) dflt_basis) - b_start (nth i (o_bases o2) dflt_basis)))) =
+         res_map (pad (Nat.max (o_dim o1) (o_dim o2) - o_dim o2)) (obj_eval tol o2 ts).
+Proof. exact @identical_dir_per_eval2. Qed.
+Print Assumptions C12_identical_dir_per_eval2.
+
+Theorem C12_make_identical_per_ok :
+  forall (tol : R) (o1 o2 : obj R) (i na nb : nat) (Ta Tb : R),
+         identical_per_hyps tol o1 o2 i na nb Ta Tb ->
+         exists a b : obj R, obj_make_identical tol o1 o2 (Some i) = Ok (a, b).
+Proof. exact @make_identical_per_ok. Qed.
+Print Assumptions C12_make_identical_per_ok.
+
+Theorem C12_make_identical_per_knots :
+  forall (tol : R) (o1 o2 : obj R) (i na nb : nat) (Ta Tb : R),
+         identical_per_hyps tol o1 o2 i na nb Ta Tb ->
+         forall a b : obj R,
+         obj_make_identical tol o1 o2 (Some i) = Ok (a, b) ->
+         let ba := nth i (o_bases a) dflt_basis in
+         let bb := nth i (o_bases b) dflt_basis in
+         b_order ba = b_order (nth i (o_bases o1) dflt_basis) /\
+         b_order bb = b_order (nth i (o_bases o1) dflt_basis) /\
+         b_per1 ba = b_per1 (nth i (o_bases o1) dflt_basis) /\
+         b_per1 bb = b_per1 (nth i (o_bases o1) dflt_basis) /\
+         b_start ba = 0 /\
+         b_end ba = 1 /\
+         b_start bb = 0 /\
+         b_end bb = 1 /\
+         b_knots ba = b_knots bb /\
+         o_dim a = Nat.max (o_dim o1) (o_dim o2) /\ o_dim b = Nat.max (o_dim o1) (o_dim o2) /\ o_rat a = o_rat b.
+Proof. exact @make_identical_per_knots. Qed.
+Print Assumptions C12_make_identical_per_knots.
+
+Theorem C12_make_identical_per_eval :
+  forall (tol : R) (o1 o2 : obj R) (i na nb : nat) (Ta Tb : R),
+         identical_per_hyps tol o1 o2 i na nb Ta Tb ->
+         forall a b : obj R,
+         obj_make_identical tol o1 o2 (Some i) = Ok (a, b) ->
+         forall ts : list R,
+         SplitCompose.dom_all tol o1 ts ->
+         (i < length ts)%nat ->
+         b_start (nth i (o_bases o1) dflt_basis) <= nth i ts 0 <= b_end (nth i (o_bases o1) dflt_basis) ->
+         param_clear tol (nth i (o_bases o1) dflt_basis) (nth i (o_bases o2) dflt_basis) (nth i ts 0) ->
+         obj_eval tol a
+           (KnotInsert.upd ts i
+              ((nth i ts 0 - b_start (nth i (o_bases o1) dflt_basis)) /
+               (b_end (nth i (o_bases o1) dflt_basis) - b_start (nth i (o_bases o1) dflt_basis)))) =
+         res_map (pad (Nat.max (o_dim o1) (o_dim o2) - o_dim o1)) (obj_eval tol o1 ts).
+Proof. exact @make_identical_per_eval. Qed.
+Print Assumptions C12_make_identical_per_eval.
+
+Theorem C12_identical_dir_open_per_ok :
+  forall (tol : R) (o1 o2 : obj R) (i nb : nat) (Tb : R),
+         identical_op_hyps tol o1 o2 i nb Tb ->
+         exists (a b : obj R) (kL : list R),
+           identical_dir tol o1 o2 i = Ok (a, b) /\
+           lowered_knots (nth i (o_bases o2) dflt_basis) nb kL /\
+           low_facts tol o1 o2 i (b_knots (ReparamEndToEnd.rp_basis (nth i (o_bases o1) dflt_basis) 0 1)) kL a b.
+Proof. exact @identical_dir_open_per_ok. Qed.
+Print Assumptions C12_identical_dir_open_per_ok.
+
+Theorem C12_identical_dir_per_open_ok :
+  forall (tol : R) (o1 o2 : obj R) (i na : nat) (Ta : R),
+         identical_po_hyps tol o1 o2 i na Ta ->
+         exists (a b : obj R) (kL : list R),
+           identical_dir tol o1 o2 i = Ok (a, b) /\
+           lowered_knots (nth i (o_bases o1) dflt_basis) na kL /\
+           low_facts tol o1 o2 i kL (b_knots (ReparamEndToEnd.rp_basis (nth i (o_bases o2) dflt_basis) 0 1)) a b.
+Proof. exact @identical_dir_per_open_ok. Qed.
+Print Assumptions C12_identical_dir_per_open_ok.
+
+Theorem C12_identical_dir_lower2_ok :
+  forall (tol : R) (o1 o2 : obj R) (i na nb : nat) (Ta Tb : R),
+         identical_lo2_hyps tol o1 o2 i na nb Ta Tb ->
+         let b1 := nth i (o_bases o1) dflt_basis in
+         let b2 := nth i (o_bases o2) dflt_basis in
+         exists (a b : obj R) (k2 : list R),
+           identical_dir tol o1 o2 i = Ok (a, b) /\
+           lowered_window b2 nb (b_per1 b1) k2 /\
+           per_facts tol o1 o2 i (b_per1 b1) (b_knots (ReparamEndToEnd.rp_basis b1 0 1)) k2 na
+             (nb + (b_per1 b2 - b_per1 b1)) a b.
+Proof. exact @identical_dir_lower2_ok. Qed.
+Print Assumptions C12_identical_dir_lower2_ok.
+
+Theorem C12_identical_dir_lower1_ok :
+  forall (tol : R) (o1 o2 : obj R) (i na nb : nat) (Ta Tb : R),
+         identical_lo1_hyps tol o1 o2 i na nb Ta Tb ->
+         let b1 := nth i (o_bases o1) dflt_basis in
+         let b2 := nth i (o_bases o2) dflt_basis in
+         exists (a b : obj R) (k2 : list R),
+           identical_dir tol o1 o2 i = Ok (a, b) /\
+           lowered_window b1 na (b_per1 b2) k2 /\
+           per_facts tol o1 o2 i (b_per1 b2) k2 (b_knots (ReparamEndToEnd.rp_basis b2 0 1))
+             (na + (b_per1 b1 - b_per1 b2)) nb a b.
+Proof. exact @identical_dir_lower1_ok. Qed.
+Print Assumptions C12_identical_dir_lower1_ok.
+
+Theorem C12_exp_hyps :
+  identical_per_hyps exp_tol PeriodicEndToEnd.ex_curve exq_curve 0 8 8 8 8.
+Proof. exact @exp_hyps. Qed.
+Print Assumptions C12_exp_hyps.
+
+Theorem C12_exb_hyps_op :
+  identical_op_hyps exp_tol ex_o2 PeriodicEndToEnd.ex_curve 0 8 8.
+Proof. exact @exb_hyps_op. Qed.
+Print Assumptions C12_exb_hyps_op.
+
+Theorem C12_exc_hyps_lo2 :
+  identical_lo2_hyps exp_tol exr_curve PeriodicEndToEnd.ex_curve 0 9 8 8 8.
+Proof. exact @exc_hyps_lo2. Qed.
+Print Assumptions C12_exc_hyps_lo2.
 
